@@ -152,3 +152,50 @@ pub fn mixed_frame(_a: &Value) -> Value {
                "why": if bad {"a response that shared an array frame with notifications did not complete its call with its own value"} else {""}})
     })
 }
+
+/// A response that arrives after its caller gave up (timed out / was cancelled) completes nothing and disturbs nothing: the next call still gets its own response
+/// and the client stays connected.
+pub fn late_reply(_a: &Value) -> Value {
+    use crate::memclient::client;
+    let rt = tokio::runtime::Builder::new_multi_thread().worker_threads(2).enable_all().build().unwrap();
+    rt.block_on(async move {
+        let (c, mut s) = client(ClientBuilder::default().request_timeout(std::time::Duration::from_millis(300)));
+        let c = std::sync::Arc::new(c);
+        let ca = c.clone();
+        let ha = tokio::spawn(async move { ca.request::<String, _>("a", rpc_params![]).await });
+        let ra = s.next_request().await.unwrap();
+        let a_out = ha.await.unwrap(); // times out: nobody answered
+        let cb = c.clone();
+        let hb = tokio::spawn(async move { cb.request::<String, _>("b", rpc_params![]).await });
+        let rb = s.next_request().await.unwrap();
+        // the late answer to A, then the answer to B
+        s.push(json!({"jsonrpc":"2.0","id":ra["id"],"result":"answer-for-a"}));
+        tokio::time::sleep(std::time::Duration::from_millis(50)).await;
+        s.push(json!({"jsonrpc":"2.0","id":rb["id"],"result":"answer-for-b"}));
+        let b_out = hb.await.unwrap();
+        let connected = c.is_connected();
+        let mut why = vec![];
+        if a_out.is_ok() {
+            why.push("the unanswered call did not time out".to_string());
+        }
+        if !matches!(&b_out, Ok(v) if v == "answer-for-b") {
+            why.push(format!("after a late answer to a call nobody waits for, the next call got {:?}", b_out.as_ref().map_err(|e| e.to_string())));
+        }
+        if !connected {
+            why.push("the client went down because of a late answer".to_string());
+        }
+        json!({"scenario":"c03_late_reply","observed":{"b":format!("{:?}", b_out.map_err(|e| e.to_string())),"connected":connected},"violation":!why.is_empty(),"why":why.join(" | ")})
+    })
+}
+
+/// the routing scenarios together (a model of the routing step leaves open which of them shows it)
+pub fn routing(a: &Value) -> Value {
+    let mut all = vec![];
+    for r in [fast_reply(&json!({"calls": 2, "delay_ms": 50})), late_reply(a), subid_collision(a)] {
+        if r["violation"].as_bool().unwrap_or(false) {
+            return r;
+        }
+        all.push(r["scenario"].clone());
+    }
+    json!({"scenario":"c03_routing","observed":{"ran":all},"violation":false,"why":""})
+}
